@@ -433,6 +433,10 @@ class Exec:
                     if isinstance(dflt, VNone): return VOpt(z3.Not(h['dom'][k]), inner)
                     if isinstance(inner, VStr) and isinstance(dflt, VStr): return VStr(z3.If(h['dom'][k], inner.t, dflt.t))
                 if f.attr == 'clear': h['dom'] = z3.K(h['ksort'], False); return NONE
+                if f.attr == 'pop' and len(args) == 1:
+                    k = self.key(args[0])
+                    if h.get('default') is None: self.pending_raise.append((z3.Not(h['dom'][k]), VExc(KeyError)))
+                    old = h['wrap'](h['val'][k]); h['dom'] = z3.Store(h['dom'], k, False); return old
             if isinstance(o, VStr):
                 a0 = lift(args[0]) if args else None
                 if f.attr == 'startswith':
